@@ -8,6 +8,7 @@
    "created by the operation" are the revisions of the final ledger that the initial ledger
    did not have. *)
 From Helm Require Props.Skeleton. (* effect skeleton tied to /repo by the translator: notes/SKEL.md *)
+From Helm Require Props.Decisions. (* data conditions of the release operations tied to /repo by the translator: notes/DEC.md *)
 From Coq Require Import List String Bool Arith.
 From Helm Require Import Common.Assoc Engine.Types Engine.Eff Engine.Ops Engine.Cluster Engine.Seq
   Engine.SeqProofs Engine.HooksProofsGate Engine.ContainLedger Engine.ContainProofs Engine.ContainDeployed
